@@ -397,6 +397,7 @@ func runC05(c *Ctx) {
 	oneConsumerRule(c, "R-C05-ONECONSUMER")
 
 	tombstoneRule(c, "R-C05-TOMB")
+	refusalsRule(c, "R-C05-TOMB", "Del") // both the immediate removal and the tombstone go through lockedMap.Del: it may decline only for an absent key or a conflict mismatch
 	flagExhaustiveRule(c, "R-C05-EXHAUSTIVE")
 	waitRule(c, "R-C05-WAIT")
 }
